@@ -3,7 +3,7 @@ CONSTANTS
   Sc1 <- C02_Sc1
   Sc2 <- C02_Sc2
   PreAgents <- Pre1
-  MaxRuns = 2
+  MaxRuns = 3
   MaxFaults = 0
   AgentFaultKinds = {}
   AgentFaultPts = {}
